@@ -228,7 +228,18 @@ example :
     (runOps ops).delivered = [⟨3, 9, 2⟩, ⟨2, 7, 1⟩, ⟨3, 7, 3⟩] ∧ (runOps ops).puts.Nodup ∧
     msg "Read" 7 1 = some ⟨2, 7, 1⟩ ∧ msg "Commit" 7 3 = some ⟨3, 7, 3⟩ := by decide
 
--- non-vacuity of the interleaving theorems: a reachable state with a full queue
-example : Reach 1 (init 1) := Reach.init
+-- non-vacuity of the interleaving theorems: the consumer parks on the empty queue, then a
+-- producer runs Put(⟨2,7,1⟩) up to the append (the state `no_lost_wakeup` speaks about: consumer
+-- parked, queue non-empty, a producer between append and Signal)
+example : ∃ s, Reach 2 s ∧ s.h.items = [⟨2, 7, 1⟩] ∧ s.cp = CPc.wait ∧ s.pp[0]? = some PPc.appended := by
+  have r0 : Reach 2 (init 2) := Reach.init
+  have r1 := Reach.step _ _ r0 (Step.cCall _ rfl)
+  have r2 := Reach.step _ _ r1 (Step.cLock _ rfl rfl)
+  have r3 := Reach.step _ _ r2 (Step.cEmpty _ rfl rfl)
+  have r4 := Reach.step _ _ r3 (Step.pCall _ 0 ⟨2, 7, 1⟩ rfl)
+  have r5 := Reach.step _ _ r4 (Step.pLock _ 0 ⟨2, 7, 1⟩ rfl rfl)
+  have r6 := Reach.step _ _ r5 (Step.pReady _ 0 ⟨2, 7, 1⟩ rfl (by decide))
+  have r7 := Reach.step _ _ r6 (Step.pAppend _ 0 ⟨2, 7, 1⟩ rfl)
+  exact ⟨_, r7, rfl, rfl, rfl⟩
 
 end Gsu.Props.C17
